@@ -147,3 +147,39 @@ CONSTRAINTS = {
 }
 PROPS_CONSTRAINTS = [('eq_bare', 'cluster_id', ''), ('oneof', 'delivery_mode', [1, 2])]
 NAME_CHARS = 'abcdefghijklmnopqrstuvwxyzABCDEFGHIJKLMNOPQRSTUVWXYZ0123456789-_.:@#,/ '
+
+
+def catalogue():
+    """the specification transcription in the shape of the translator's catalogue (the fields the oracles'
+    generators use). The oracles take their input domain - which classes exist, which argument has which
+    wire type, which values the protocol definition allows - from HERE, never from the translated
+    commands.py: an edit of commands.py (harmless or not) must not change what the oracles consider
+    a valid input."""
+    def rule(t, domain_of):
+        k = t[0]
+        if k == 'eq':
+            return {'attr': pyname(t[1]), 'kind': 'mustEqInt' if isinstance(t[2], int) else 'mustEqStr', 'c': t[2]}
+        if k == 'false':
+            return {'attr': pyname(t[1]), 'kind': 'mustBeFalse'}
+        if k == 'maxlen':
+            return {'attr': pyname(t[1]), 'kind': 'maxLen', 'n': t[2]}
+        if k == 'chars':
+            return {'attr': pyname(t[1]), 'kind': 'regex', 'domain': domain_of.get(t[1], 'name')}
+        if k == 'eq_bare':
+            return {'attr': prop_pyname(t[1]), 'kind': 'mustEqStrBare', 'c': t[2]}
+        if k == 'oneof':
+            return {'attr': prop_pyname(t[1]), 'kind': 'oneOf', 'cs': list(t[2])}
+        raise ValueError(t)
+    methods = []
+    for (cname, cid), ms in SPEC.items():
+        for mname, mid, replies, args in ms:
+            name = '%s.%s' % (camel(cname), camel(mname))
+            cons = CONSTRAINTS.get(name, [])
+            doms = {t[1]: ('queue-name' if any(c[0] == 'maxlen' and c[1] == t[1] and c[2] == 256 for c in cons) else 'exchange-name')
+                    for t in cons if t[0] == 'chars'}
+            methods.append({'key': cid << 16 | mid, 'index': cid << 16 | mid, 'name': name, 'className': camel(cname), 'classId': cid,
+                            'methodId': mid, 'args': [{'name': pyname(a[0]), 'ty': a[1]} for a in args],
+                            'rules': [rule(t, doms) for t in cons]})
+    props = {'name': 'Basic.Properties', 'props': [{'name': prop_pyname(n), 'ty': t, 'flag': 1 << (15 - i)} for i, (n, t) in enumerate(PROPS)],
+             'rules': [rule(t, {}) for t in PROPS_CONSTRAINTS]}
+    return {'basicClassId': 60, 'classCount': len(SPEC), 'methods': methods, 'properties': props}
